@@ -42,3 +42,27 @@ pub fn basic_schema() -> searchlite_core::Schema {
   }))
   .expect("basic schema")
 }
+
+/// match_all over a fresh reader: (doc id, stored `n`) sorted by id (duplicates kept).
+pub fn contents(idx: &searchlite_core::Index) -> anyhow::Result<Vec<(String, i64)>> {
+  let reader = idx.reader()?;
+  let req: searchlite_core::api::types::SearchRequest = serde_json::from_value(serde_json::json!({
+    "query": {"type": "match_all"}, "limit": 10000, "return_stored": true, "highlight_field": null
+  }))?;
+  let res = reader.search(&req)?;
+  let mut out: Vec<(String, i64)> = res
+    .hits
+    .iter()
+    .map(|h| {
+      let n = h
+        .fields
+        .as_ref()
+        .and_then(|f| f.get("n"))
+        .and_then(|v| v.as_i64())
+        .unwrap_or(-1);
+      (h.doc_id.clone(), n)
+    })
+    .collect();
+  out.sort();
+  Ok(out)
+}
